@@ -59,10 +59,16 @@ class Gen:
         if allow_shadow and allv and self.chance(self.o["shadow"]):
             # at global scope a redefinition keeps the type (functions compiled earlier keep
             # their typed view of the global: a known C06 matter, not C01/C02's subject)
-            cands = sorted(allv) if sc.parent is not None else sorted(n for n, (t, m) in allv.items() if ty is not None and t == ty)
+            # (the typed opcodes check their operand tags since 7e82908, so one redefinition in
+            # four may now change the type: feature `retype-global`)
+            retype = sc.parent is None and self.chance(self.o.get("retype_global", 0.25))
+            cands = sorted(allv) if (sc.parent is not None or retype) else sorted(n for n, (t, m) in allv.items() if ty is not None and t == ty)
             if cands:
                 self.features.add("shadow")
-                return self.pick(cands)
+                n = self.pick(cands)
+                if retype and (ty is None or allv[n][0] != ty):
+                    self.features.add("retype-global")
+                return n
         for _ in range(20):
             n = self.pick(NAMES) + (str(self.r.randrange(4)) if self.chance(0.3) else "")
             if n not in allv and n not in self.funcs:
